@@ -108,3 +108,25 @@ mut("C06", "c06-testonly-receiver-lost-in-transport", AN, "\t// Receiver type (o
 mut("C06", "c06-testonly-receiver-lost-in-transport", AN, "import (\n\t\"go/ast\"\n\t\"go/token\"\n\t\"regexp\"\n\t\"strings\"\n", "import (\n\t\"fmt\"\n\t\"go/ast\"\n\t\"go/token\"\n\t\"regexp\"\n\t\"strconv\"\n\t\"strings\"\n")
 mut("C06", "c06-constructor-index-only-local-when-root-has-own", IX, "\tfor pkg, ann := range iterOverPackages[T](pass, packageAnnotations) {\n\t\tfor _, annot := range ann.ConstructorAnnotations {", "\tfor pkg, ann := range iterOverPackages[T](pass, packageAnnotations) {\n\t\tif pkg != pass.Pkg && len(packageAnnotations.ConstructorAnnotations) > 0 {\n\t\t\tcontinue // local annotations take precedence\n\t\t}\n\t\tfor _, annot := range ann.ConstructorAnnotations {")
 mut("C06", "c06-packageonly-allowlist-keeps-two-entries-across-packages", IX, "\t\t\tcase annotations.TestOnlyOnFunc:\n\t\t\t\t// Add allowed packages directly to function\n\t\t\t\tfor _, allowedPkg := range annot.AllowedPackages {", "\t\t\tcase annotations.TestOnlyOnFunc:\n\t\t\t\t// Add allowed packages directly to function\n\t\t\t\tfor i, allowedPkg := range annot.AllowedPackages {\n\t\t\t\t\tif pkg != pass.Pkg && i >= 2 {\n\t\t\t\t\t\tbreak\n\t\t\t\t\t}")
+
+# ---- property-PRESERVING changes: the checks must stay silent -----------------------------------
+harmless("C19", "ok-c19-more-context-lines", RP, "lines := r.readSourceLines(position.Filename, position.Line, 2, 1) // 2 lines before, 1 line after", "lines := r.readSourceLines(position.Filename, position.Line, 3, 2) // 3 lines before, 2 lines after")
+harmless("C19", "ok-c19-box-drawing-gutter", RP, "builder.WriteString(fmt.Sprintf(\"%*d | \", lineNumWidth, lineNum))", "builder.WriteString(fmt.Sprintf(\"%*d │ \", lineNumWidth, lineNum))")
+harmless("C19", "ok-c19-box-drawing-gutter", RP, "\t\t\t\tbuilder.WriteString(\" | \")\n", "\t\t\t\tbuilder.WriteString(\" │ \")\n")
+harmless("C19", "ok-c19-no-cache-reread-every-time", RP, "\tr.lineCache[filename] = lines\n\treturn lines", "\treturn lines")
+harmless("C19", "ok-c19-split-instead-of-scanner", RP,
+    "\tvar lines []string\n\tscanner := bufio.NewScanner(strings.NewReader(string(content)))\n\t// Lines may be longer than bufio.MaxScanTokenSize (minified or generated\n\t// code); without a larger limit the scanner silently stops at such a line.\n\tscanner.Buffer(nil, len(content)+1)\n\tfor scanner.Scan() {\n\t\tlines = append(lines, scanner.Text())\n\t}\n",
+    "\tvar lines []string\n\t_ = bufio.ScanLines\n\ttext := strings.TrimSuffix(string(content), \"\\n\")\n\tif len(content) > 0 {\n\t\tfor _, l := range strings.Split(text, \"\\n\") {\n\t\t\tlines = append(lines, strings.TrimSuffix(l, \"\\r\"))\n\t\t}\n\t}\n")
+harmless("C16", "ok-c16-linear-scan-without-index", IS,
+    "\tfor checkCode := range codes.GetCodesForCheck(code) {\n\n\t\tindices, exists := s.CodeIndex[checkCode]\n\t\tif exists {\n\t\t\tfor _, idx := range indices {\n\t\t\t\tmarker := s.Markers[idx]\n\t\t\t\tif pos >= marker.StartPos && pos <= marker.EndPos {\n\t\t\t\t\treturn true\n\t\t\t\t}\n\t\t\t}\n\t\t}\n\t}",
+    "\tfor checkCode := range codes.GetCodesForCheck(code) {\n\t\tfor _, marker := range s.Markers {\n\t\t\tif slices.Contains(marker.Codes, checkCode) && pos >= marker.StartPos && pos <= marker.EndPos {\n\t\t\t\treturn true\n\t\t\t}\n\t\t}\n\t}")
+harmless("C16", "ok-c16-no-fast-reject", IS, "\tif s.MinPos == token.NoPos || pos < s.MinPos || pos > s.MaxPos {\n\t\treturn false\n\t}\n", "")
+harmless("C11", "ok-c11-allowlist-sorted-copy-in-message", PR, "import (\n\t\"fmt\"\n\t\"go/token\"\n", "import (\n\t\"fmt\"\n\t\"go/token\"\n\t\"slices\"\n")
+harmless("C11", "ok-c11-allowlist-sorted-copy-in-message", PR, "func (v PackageOnlyViolation) GetMessage() string {\n", "func (v PackageOnlyViolation) GetMessage() string {\n\tv.AllowedPackages = slices.Sorted(slices.Values(v.AllowedPackages))\n")
+harmless("C11", "ok-c11-mutex-protected-global-counter", IS, "func (s *IgnoreSet) Contains(code string, pos token.Pos) bool {\n", "var lookupMu sync.Mutex\nvar lookupCount int\n\nfunc (s *IgnoreSet) Contains(code string, pos token.Pos) bool {\n\tlookupMu.Lock()\n\tlookupCount++\n\tlookupMu.Unlock()\n")
+harmless("C11", "ok-c11-mutex-protected-global-counter", IS, "import (\n\t\"go/token\"\n\t\"slices\"\n", "import (\n\t\"go/token\"\n\t\"slices\"\n\t\"sync\"\n")
+harmless("C06", "ok-c06-correct-cache-keyed-by-types-package", IX,
+    "\t\t\tfor _, imp := range pass.Pkg.Imports() {\n\t\t\t\tfact := zero.CreateEmpty()\n\t\t\t\tif pass.ImportPackageFact(imp, fact) {",
+    "\t\t\tfor _, imp := range pass.Pkg.Imports() {\n\t\t\t\tfact := zero.CreateEmpty()\n\t\t\t\tif imp.Path() != \"\" && pass.ImportPackageFact(imp, fact) {")
+harmless("C06", "ok-c06-annotation-struct-fields-reordered", AN, "\tOnType    string // \"MyStruct\"\n\tOnTypePos token.Pos\n\n\tConstructorNames []string // [\"New\", \"Create\"]\n}", "\tConstructorNames []string // [\"New\", \"Create\"]\n\n\tOnTypePos token.Pos\n\tOnType    string // \"MyStruct\"\n}")
+harmless("C06", "ok-c06-extra-exported-field-in-fact", AN, "\tPackageOnlyAnnotations []PackageOnlyAnnotation\n}", "\tPackageOnlyAnnotations []PackageOnlyAnnotation\n\tSchemaVersion          int\n}")
